@@ -372,6 +372,51 @@ func (w *World) Replay(base int, evs []Ev, r *rand.Rand) ([]Line, error) {
 		}
 		lines = append(lines, ln)
 	}
+	// a last probe, independent of the model's state: a POST that carries TWO return addresses, a validly signed
+	// in-domain triple in one place (query string or body) and an unsigned / off-domain / stale one in the other.
+	// Whichever the authenticator acts on must be the one it validated: if the browser is returned anywhere, it
+	// is to the validly signed address.
+	if r.Intn(2) == 0 {
+		if emitted == "" {
+			tmp := &browser{}
+			resp, _, _ := w.to(tmp, "GET", "http://"+appHost+"/oauth2/sign_out", nil, nil)
+			emitted = resp.Header.Get("Location")
+		}
+		good := w.signOutParams(emitted, "valid", r)
+		bad := w.signOutParams(emitted, pick(r, "offdomain", "tampered", "stale", "foreign"), r)
+		if r.Intn(2) == 0 {
+			// not even signed: a bare address of the attacker's
+			bad = url.Values{"redirect_uri": {pick(r, "https://login.attacker.test/sso", "http://evil.test/")}}
+			if r.Intn(2) == 0 {
+				bad.Set("sig", good.Get("sig"))
+				bad.Set("ts", good.Get("ts"))
+			}
+		}
+		w.IdP.Script(map[string]world.IdpAnswer{})
+		u := "http://" + authHost + w.A.Path("sign_out")
+		before := b.ac
+		var resp *world.Resp
+		var err error
+		where := "valid in query, other in body"
+		if r.Intn(2) == 0 {
+			resp, _, err = w.to(b, "POST", u+"?"+good.Encode(), bad, nil)
+		} else {
+			where = "valid in body, other in query"
+			resp, _, err = w.to(b, "POST", u+"?"+bad.Encode(), good, nil)
+		}
+		if err != nil {
+			return nil, err
+		}
+		ln := Line{Ev: "apostmix", Case: base + len(lines), Sig: "valid", Rev: "ok", To: "none", Status: resp.Status, Note: where}
+		ln.Revoke = w.revokeCalls() > 0
+		ln.Cleared = before != "" && b.ac == ""
+		if loc := resp.Header.Get("Location"); resp.Status/100 == 3 && loc != "" {
+			ln.Back = true
+			ln.SameHost = loc == good.Get("redirect_uri") // returned to the validly signed address
+		}
+		ln.Conc = map[string]interface{}{"query_or_body_valid": good.Encode(), "other": bad.Encode(), "location": resp.Header.Get("Location")}
+		lines = append(lines, ln)
+	}
 	return lines, nil
 }
 
@@ -474,3 +519,5 @@ func Run(in, out string, seed int64, sample, workers, only int, target string) (
 	bw.Flush()
 	return sum, nil
 }
+
+func pick(r *rand.Rand, xs ...string) string { return xs[r.Intn(len(xs))] }
